@@ -196,3 +196,43 @@ def run(ctx):
              "event must be bit-identical to the baseline event (CrossCfg.tla)" % len(variants), exhaustive=False)
     ctx.assumptions += ["the baseline traces are judged absolutely by the checks of C01, C02, C05, C11, C14 (C06, C18)",
                         "on gcc/clang GLM_FORCE_ALIGNED_GENTYPES without intrinsics leaves the types packed; it is exercised as the no-op it is"]
+
+
+def replay_pairs(ctx, path, mode, kind="std", rkeys="all"):
+    """Re-judge the {"baseline":..., "variant":...} pairs of a replay file with CrossCfg.tla."""
+    import json
+    A, Bv = [], []
+    with open(path) as f:
+        for ln in f:
+            try:
+                d = json.loads(ln)
+            except Exception:
+                continue
+            if isinstance(d, dict) and "baseline" in d and "variant" in d:
+                A.append(json.dumps(d["baseline"]) + "\n")
+                Bv.append(json.dumps(d["variant"]) + "\n")
+    if not A:
+        vlib.log("[replay] no baseline/variant pairs in %s" % path)
+        return 2
+    pa, pb = ctx.scratch.path("replay.a"), ctx.scratch.path("replay.b")
+    with open(pa, "w") as f:
+        f.writelines(A)
+    with open(pb, "w") as f:
+        f.writelines(Bv)
+    r = vlib.tlc("CrossCfg", env={"TRACE": pa, "TRACE_B": pb, "KIND": kind, "MODE": mode, "RKEYS": rkeys}, workers=1, timeout=900, scratch=ctx.scratch)
+    s = r.printed("SUMMARY")
+    if not r.ok or not s:
+        raise vlib.Infra("CrossCfg could not judge the replay: " + r.tail(5))
+    m = re.match(r'<<"SUMMARY", (\d+), (\d+)', s[-1])
+    vlib.log("[replay] %d pair(s) judged by CrossCfg (mode %s): %d differ" % (int(m.group(1)), mode, int(m.group(2))))
+    for ml in r.printed("MISMATCH")[:20]:
+        vlib.log("  " + ml)
+    if int(m.group(2)):
+        ctx.violation("%d of the %d recorded baseline/variant pair(s) are rejected by CrossCfg.tla (mode %s)" % (int(m.group(2)), int(m.group(1)), mode), path)
+    return 1 if ctx.violations else 0
+
+
+def replay(ctx, path):
+    base = os.path.basename(path)
+    return replay_pairs(ctx, path, "config", "fallback" if ("CXX98" in base or "CXX03" in base) else "std",
+                        "r" if any(("-%s-" % h) in base for h in ("c04", "c08", "c09", "c12")) else "all")
